@@ -30,6 +30,20 @@ package environment
 //@   ensures @C06 addscope.new:  fresh(e.local[old(len(e.local))]) && e.local[old(len(e.local))] != nil && len(e.local[old(len(e.local))]) == 0
 //@   panics never
 
+//@ func (e *Environment) Depth() (n int)
+//@   modifies nothing
+//@   ensures @C06 @C07 depth.def: n == len(e.local)
+//@   panics never
+
+// Unwind cuts the scope stack back to a depth it had before: what a run opened and did not close
+// (a return from inside a loop or a function, an error, a time-out, a panic) is gone afterwards.
+//@ func (e *Environment) Unwind(depth int)
+//@   modifies e.local
+//@   ensures @C06 @C07 unwind.cut: depth >= 0 && depth < old(len(e.local)) ==> e.local === old(e.local)[:depth]
+//@   ensures @C06 @C07 unwind.keep: !(depth >= 0 && depth < old(len(e.local))) ==> e.local === old(e.local)
+//@   ensures unwind.count: count(scopes) >= old(count(scopes))
+//@   panics never
+
 //@ func (e *Environment) RemoveScope() (err error)
 //@   modifies e.local
 //@   ensures @C06 removescope.some: old(len(e.local)) > 0 ==> err == nil && e.local === old(e.local)[:old(len(e.local))-1]
